@@ -287,6 +287,23 @@ pub fn channel(rng: &mut StdRng, family: &str, bps: usize, n: usize) -> Vec<i32>
             let a = rng.gen_range(3..=12i64);
             v.iter_mut().for_each(|x| *x = rng.gen_range(-a..=a) as i32);
         }
+        "weakar" => {
+            // weakly correlated: AR(10) with ten small equal coefficients (each far below 0.25, so the
+            // quantiser's shift saturates), driven by moderate noise; the LPC subframe wins with tiny coefficients
+            let a = (hi >> 5).max(8);
+            let c = [0.09f64, 0.07, 0.05][rng.gen_range(0..3)];
+            let mut x = vec![0f64; n];
+            for t in 0..n {
+                let mut acc = rng.gen_range(-a..=a) as f64;
+                for k in 1..=10 {
+                    if t >= k {
+                        acc += c * x[t - k];
+                    }
+                }
+                x[t] = acc;
+                v[t] = (acc.round() as i64).clamp(lo, hi) as i32;
+            }
+        }
         "noise_lo" => {
             let a = (hi >> 10).max(1);
             v.iter_mut().for_each(|x| *x = rng.gen_range(-a..=a) as i32);
